@@ -72,6 +72,7 @@ type AxiomDecl struct {
 	Expr  Expr
 	Src   string
 	File  string
+	Pkg   string
 }
 
 type ObjInv struct {
@@ -286,7 +287,7 @@ func (cs *ContractSet) LoadContractFile(path, pkg string) error {
 			if err != nil {
 				return fail(l, "%v", err)
 			}
-			cs.Axioms = append(cs.Axioms, &AxiomDecl{label, e, rest, path})
+			cs.Axioms = append(cs.Axioms, &AxiomDecl{label, e, rest, path, pkg})
 		case strings.HasPrefix(t, "assumption "):
 			cs.Assumptions = append(cs.Assumptions, strings.TrimSpace(strings.TrimPrefix(t, "assumption ")))
 		case strings.HasPrefix(t, "invariant "):
@@ -380,11 +381,15 @@ func (cs *ContractSet) LoadContractFile(path, pkg string) error {
 					cur.Loops[k] = ls
 				}
 				label, props, rest := takeLabel(strings.TrimSpace(m[3]))
-				e, err := ParseExpr(rest)
-				if err != nil {
-					return fail(l, "%v", err)
+				var e Expr
+				if !(m[2] == "decreases" && strings.TrimSpace(rest) == "*") {
+					var err error
+					e, err = ParseExpr(rest)
+					if err != nil {
+						return fail(l, "%v", err)
+					}
 				}
-				c := &Clause{Kind: m[2], Label: label, Props: props, Expr: e, Src: rest, Loop: k, File: path, Line: l.line}
+				c := &Clause{Kind: m[2], Label: label, Props: props, Expr: e, Src: strings.TrimSpace(rest), Loop: k, File: path, Line: l.line}
 				if m[2] == "invariant" {
 					if c.Label == "" {
 						c.Label = "i" + strconv.Itoa(len(ls.Invariants)+1)
